@@ -342,6 +342,7 @@ def o96(ctx):
         for srt in (True, False):
             S = Space(f"the caller's {kind}", how="root")
             src = Val(sym("ids"), space=S)
+            src.pykind = kind
             amap = {"isinstance(input_tlt, np.ndarray)": kind == "ndarray", "isinstance(input_tlt, list)": kind == "list",
                     "isinstance(input_tlt, str)": False, "input_tlt.size == 0": False, "len(input_tlt) == 0": False, "sort_angles": srt}
             it = Interp(ctx.prog, assume=assume_map(amap))
@@ -428,6 +429,7 @@ def o98(ctx):
     for kind in ("ndarray", "list"):
         S_ = Space(f"the caller's {kind} of doses", how="root")
         src = Val(sym("doses_in"), space=S_)
+        src.pykind = kind
         amap = {"isinstance(input_dose, np.ndarray)": kind == "ndarray", "isinstance(input_dose, list)": kind == "list",
                 "isinstance(input_dose, (np.ndarray, list))": True, "isinstance(input_dose, str)": False}
         r = Interp(ctx.prog, assume=assume_map(amap)).run(q2, [src], {})
